@@ -1055,7 +1055,13 @@ _BIG = 2 ** 53
 _JNEG = [{"sp": {"a": -1, "b": 1}, "doc": {"a": -2.5}}, {"sp": {"a": 1, "b": 1}, "doc": {"a": 2.5}}, {"sp": {"a": "-1", "b": -0.5}, "doc": {"a": -2}}]
 _JPATH = [{"sp": {"a": "tmp/a", "b": 1}, "doc": {"s": "a/b/"}, "link": True}, {"sp": {"a": "tmpfile", "b": 1}, "doc": {"s": "a/b"}},
           {"sp": {"a": "/usr/bin", "b": 2}, "doc": {"s": "/ab"}}, {"sp": {"a": "usr", "b": 2}, "doc": None}, {"sp": {"a": "a/b/"}, "doc": {"s": "b"}}]
+_JNS = [{"sp": {"doc": {"x": 1}, "x": 5, "sp": {"x": 7}}, "doc": {"x": 3}}, {"sp": {"doc": {"x": 2}, "x": 5}, "doc": {"x": 3, "sp": {"x": 1}}},
+        {"sp": {"doc": {"x": 1}, "x": 6, "sp": {"x": 8}}, "doc": None}, {"sp": {"x": 6}, "doc": {"x": 4}}]
 CONSTRUCTED = [
+    # state point keys that are spelled like the namespaces: 'sp.doc.x' is the key doc.x of the state point
+    {"jobs": _JNS, "filter": {"sp.x": {"$exists": True}}, "rewrites": [[2, 0]], "slices": [],
+     "groupings": [{"key": "sp.doc.x", "default": None}, {"key": "sp.doc.x", "default": -1}, {"key": ["sp.doc.x", "x"], "default": 0, "seq": "tuple"},
+                   {"key": "sp.sp.x", "default": -1}, {"key": "doc.sp.x", "default": -1}, {"key": "doc.x", "default": None}, {"key": "x", "default": None}]},
     # /regex/ tokens whose expression itself starts or ends with the delimiter (path-like values)
     *[{"jobs": _JPATH, "filter": f, "rewrites": [[6, k]], "slices": [], "groupings": []}
       for f in ({"a": {"$regex": "tmp/"}}, {"a": {"$regex": "/usr"}}, {"doc.s": {"$regex": "^a/b/$"}}, {"a": {"$regex": "b/"}, "b": 1},
